@@ -13,13 +13,14 @@ CONSTANTS
   WatcherByEpoch = %(epoch)s
   HookCurrent = %(hook)s
   SwapGuarded = %(guard)s
+  SupervisorOrClosed = %(guard)s
   AllowClose = %(close)s
 %(view)s
 INVARIANTS %(invs)s
 %(constraint)s
 CHECK_DEADLOCK FALSE
 """
-INVS = "TokenPerDial NoStreamDetached CallersSurvive NotificationsOnce NoPanic NoDialAfterClose NoCallerParkedWhenClosed SilentAfterDisconnect"
+INVS = "TokenPerDial NoStreamDetached CallersSurvive NotificationsOnce NoPanic NoDialAfterClose NoCallerParkedWhenClosed NoSupervisorParkedWhenClosed SilentAfterDisconnect"
 NG = 17  # StreamNotFound
 
 
@@ -175,4 +176,89 @@ def gated(tag):
                           {"a": "release", "gate": "w"}, {"a": "sleep", "ms": 300}]
                 steps += probes(ss) + teardown(ss)
                 scs.append({"id": "%s/gated/%s/nth%d/d%d" % (tag, s_, nth, delay), "kind": "iscp", "conn": conn, "steps": steps})
+    return scs
+
+
+def c10_family(tag, quick):
+    """Close at every interesting point: idle, streams open, calls pending, reconnect dialling (gated), resume in progress;
+    stream close vs connection close in both orders; repeated and concurrent Close; then calls on the closed objects; census."""
+    scs = []
+    tail = [{"a": "sleep", "ms": 100}, {"a": "closeBroker"}, {"a": "census", "ms": 2000}, {"a": "quiesce", "ms": 50}]
+
+    def after_conn_calls():
+        return [{"a": "sendMeta", "g": "A1", "tag": 31, "ctxMs": 3000, "wait": True},
+                {"a": "openUp", "g": "A1", "obj": "U8", "qos": "reliable", "ctxMs": 3000, "wait": True},
+                {"a": "openDown", "g": "A1", "obj": "D8", "qos": "reliable", "srcs": ["n1"], "ctxMs": 3000, "wait": True},
+                {"a": "call", "g": "A1", "tag": 32, "ctxMs": 3000, "wait": True},
+                {"a": "recvCall", "g": "A1", "ctxMs": 3000, "wait": True},
+                {"a": "sleep", "ms": 150},
+                {"a": "write", "g": "A1", "obj": "U1", "id": "A", "pts": [[50, 4]], "ctxMs": 3000, "wait": True},
+                {"a": "flush", "g": "A1", "obj": "U1", "ctxMs": 3000, "wait": True},
+                {"a": "read", "g": "A1", "obj": "D1", "ctxMs": 3000, "wait": True},
+                {"a": "readMeta", "g": "A1", "obj": "D1", "ctxMs": 3000, "wait": True},
+                {"a": "closeUp", "g": "A1", "obj": "U1", "ctxMs": 3000, "wait": True},
+                {"a": "closeDown", "g": "A1", "obj": "D1", "ctxMs": 3000, "wait": True},
+                {"a": "closeConn", "g": "A1", "ctxMs": 3000, "wait": True},
+                {"a": "closeConn", "g": "A2", "ctxMs": 3000}, {"a": "closeConn", "g": "A3", "ctxMs": 3000},
+                {"a": "join", "obj": "A2"}, {"a": "join", "obj": "A3"}]
+
+    def base(conn=None):
+        return prelude(("S1", "S2"), conn or {}) + [{"a": "ackMode", "mode": "auto"},
+               {"a": "write", "g": "W", "obj": "U1", "id": "A", "pts": [[1, 4]], "wait": True}, {"a": "flush", "g": "W", "obj": "U1", "wait": True}]
+
+    # A: connection closed with streams left open, then every kind of call
+    scs.append({"id": tag + "/afterConnClose/streamsOpen", "kind": "iscp", "conn": {},
+                "steps": base() + [{"a": "closeConn", "g": "C", "ctxMs": 2000, "wait": True}] + after_conn_calls() + tail})
+    # B: stream close first, calls on closed streams, then connection close
+    scs.append({"id": tag + "/afterStreamClose", "kind": "iscp", "conn": {},
+                "steps": base() + [{"a": "closeUp", "g": "C", "obj": "U1", "ctxMs": 2000, "wait": True},
+                                   {"a": "closeDown", "g": "C", "obj": "D1", "ctxMs": 2000, "wait": True},
+                                   {"a": "write", "g": "A1", "obj": "U1", "id": "A", "pts": [[51, 4]], "ctxMs": 3000, "wait": True},
+                                   {"a": "flush", "g": "A1", "obj": "U1", "ctxMs": 3000, "wait": True},
+                                   {"a": "read", "g": "A1", "obj": "D1", "ctxMs": 3000, "wait": True},
+                                   {"a": "closeUp", "g": "A1", "obj": "U1", "ctxMs": 3000, "wait": True},
+                                   {"a": "closeDown", "g": "A1", "obj": "D1", "ctxMs": 3000, "wait": True},
+                                   {"a": "sendMeta", "g": "A1", "tag": 33, "ctxMs": 3000, "wait": True},
+                                   {"a": "closeConn", "g": "C", "ctxMs": 2000, "wait": True}] + after_conn_calls() + tail})
+    # C: connection close with pending calls (a request the broker never answers, a blocked read, a blocked receive)
+    scs.append({"id": tag + "/pendingCalls", "kind": "iscp", "conn": {},
+                "steps": base() + [{"a": "rule", "rule": {"on": "UpstreamMetadata", "do": "drop"}},
+                                   {"a": "sendMeta", "g": "P1", "tag": 34, "ctxMs": 4000}, {"a": "read", "g": "P2", "obj": "D1", "ctxMs": 4000},
+                                   {"a": "recvCall", "g": "P3", "ctxMs": 4000}, {"a": "recvReply", "g": "P4", "ctxMs": 4000},
+                                   {"a": "await", "ev": "BRecvReq", "match": {"kind": "UpstreamMetadata"}, "ms": 1000}, {"a": "sleep", "ms": 30},
+                                   {"a": "closeConn", "g": "C", "ctxMs": 2000, "wait": True},
+                                   {"a": "join", "obj": "P1"}, {"a": "join", "obj": "P2"}, {"a": "join", "obj": "P3"}, {"a": "join", "obj": "P4"}]
+                         + after_conn_calls() + tail})
+    # D: Close while reconnect() is between dial and status swap (gated dial), ok and failing dial, fast and slow
+    for outcome in ("ok", "fail"):
+        for hold_ms in (30, 150):
+            conn = {"pingMs": [100, 100]}
+            scs.append({"id": "%s/closeDuringRedial/%s/%d" % (tag, outcome, hold_ms), "kind": "iscp", "conn": conn,
+                        "steps": base(conn) + [{"a": "dialPlan", "dial": [{"do": outcome, "gate": "g1"}]}, {"a": "cut"},
+                                               {"a": "await", "ev": "Dial", "match": {"n": 2}, "ms": 3000, "must": True},
+                                               {"a": "closeConn", "g": "C", "ctxMs": 3000}, {"a": "sleep", "ms": hold_ms},
+                                               {"a": "release", "gate": "g1"}, {"a": "join", "obj": "C"}, {"a": "sleep", "ms": 100}]
+                                 + after_conn_calls() + tail})
+    # E: Close while a stream's resume exchange is unanswered
+    for kind in ("UpstreamResumeRequest", "DownstreamResumeRequest"):
+        conn = {"pingMs": [100, 100], "dialDelayMs": 40}
+        scs.append({"id": "%s/closeDuringResume/%s" % (tag, kind), "kind": "iscp", "conn": conn,
+                    "steps": base(conn) + [{"a": "rule", "rule": {"on": kind, "do": "drop"}}, {"a": "cut"},
+                                           {"a": "await", "ev": "BRecvReq", "match": {"kind": kind}, "ms": 3000, "must": True},
+                                           {"a": "closeConn", "g": "C", "ctxMs": 3000, "wait": True}] + after_conn_calls() + tail})
+    # F: concurrent Close of stream and connection; Close of an idle connection; double Close of a stream
+    scs.append({"id": tag + "/concurrentClose", "kind": "iscp", "conn": {},
+                "steps": base() + [{"a": "closeUp", "g": "C1", "obj": "U1", "ctxMs": 2000}, {"a": "closeConn", "g": "C2", "ctxMs": 2000},
+                                   {"a": "closeDown", "g": "C3", "obj": "D1", "ctxMs": 2000}, {"a": "closeConn", "g": "C4", "ctxMs": 2000},
+                                   {"a": "join", "obj": "C1"}, {"a": "join", "obj": "C2"}, {"a": "join", "obj": "C3"}, {"a": "join", "obj": "C4"}]
+                         + after_conn_calls() + tail})
+    scs.append({"id": tag + "/idleClose", "kind": "iscp", "conn": {},
+                "steps": [{"a": "connect", "must": True}, {"a": "closeConn", "g": "C", "ctxMs": 2000, "wait": True},
+                          {"a": "sendMeta", "g": "A1", "tag": 35, "ctxMs": 3000, "wait": True},
+                          {"a": "closeConn", "g": "A1", "ctxMs": 3000, "wait": True}] + tail})
+    scs.append({"id": tag + "/doubleStreamClose", "kind": "iscp", "conn": {},
+                "steps": base() + [{"a": "closeUp", "g": "C1", "obj": "U1", "ctxMs": 2000}, {"a": "closeUp", "g": "C2", "obj": "U1", "ctxMs": 2000},
+                                   {"a": "closeDown", "g": "C3", "obj": "D1", "ctxMs": 2000}, {"a": "closeDown", "g": "C4", "obj": "D1", "ctxMs": 2000},
+                                   {"a": "join", "obj": "C1"}, {"a": "join", "obj": "C2"}, {"a": "join", "obj": "C3"}, {"a": "join", "obj": "C4"},
+                                   {"a": "closeConn", "g": "C", "ctxMs": 2000, "wait": True}] + tail})
     return scs
